@@ -32,7 +32,7 @@ claim("C04", "proof",
       "(labels of later stages are in range, on boundaries and cover the construct named in the message) are checked by a label audit "
       "of every report on generated multi-byte/CRLF/commented files, and the line:column printed by the real binary and every SARIF region "
       "(primary and related locations) are compared with positions recomputed from the original bytes: that part is exploration, stated "
-      "as partial in the evidence.",
+      "as partial in the evidence. The label audit also requires that an end-of-file error is labelled at the end of the file and that a LessThan finding is labelled at the LessThan input (fixes 96668b8, 2e3b320, found by an audit).",
       "Lean kernel + standard axioms for the stripper part; LALRPOP @L/@R, lifting/desugaring metadata flow and codespan rendering are exercised, not proved.",
       "Lean 4 proof (offset preservation) + label audit on the real pipeline", "5 (C04)")
 
@@ -54,7 +54,7 @@ claim("C03", "proof",
       "the definition up first; displayed = offered filtered by (level >= --level, id not allowed, not located solely in an included "
       "file); exit 0 iff nothing displayed; summary count = number displayed; SARIF = displayed. Tie: the real runner in-process "
       "(conservation measured directly against per-definition isolated runs; model batches = real batches) and the real binary over "
-      "the option lattice (exit, summary, printed diagnostics, SARIF incl. line/column recomputed from the original bytes).",
+      "the option lattice (exit, summary, printed diagnostics, SARIF incl. line/column recomputed from the original bytes). Reports about the version pragma of an only-included file are expected to be hidden (they are located in that file since fix 9e258e5); SARIF URIs are decoded and compared with the paths that were read, for file names with quotes, spaces, '#' and '%' (fix 31f6e86).",
       "Lean kernel + standard axioms; the model abstracts CFG generation and the passes as arbitrary functions (that is the quantifier); "
       "codespan rendering and serde-sarif are exercised, not modelled; correspondence is sampled over generated projects.",
       "Lean 4 proof (state-machine invariant + refinement to a flatMap spec) + differential runs over the option lattice", "5 (C03/C02/C17)")
@@ -128,7 +128,7 @@ claim("C10", "proof",
       "suffixes are injective on declarations of a name; the SSA version key (after the fix) is injective on (name, suffix), with the old "
       "key's collision kept as a counterexample theorem. Tie: every variable occurrence of generated definitions with heavy shadowing and "
       "x / x_0 look-alikes: real (name, suffix) in the pre-SSA CFG vs the Lean model on the real AST (L2) and vs lexical resolution "
-      "(same key iff same declaration, L1); CS0001/CS0002 of the real pipeline incl. primary/secondary locations.",
+      "(same key iff same declaration, L1); CS0001/CS0002 of the real pipeline incl. primary/secondary locations. A further stage checks that the findings of a definition do not depend on whether two declarations in non-overlapping scopes share a spelling (defect e04130d found by an audit).",
       "Lean kernel + standard axioms; the flattening of the AST into the event sequence (traversal order of unique_vars.rs) lives in the "
       "driver and is validated only by the correspondence; correspondence is sampled.",
       "Lean 4 proof (refinement of the renamer to lexical resolution) + per-occurrence correspondence", "5 (C10)")
@@ -266,7 +266,7 @@ claim("C09", "proof",
       "the perturbed run are equal (lock-step simulation); multi_step_taint = reachability; the sink set covers every observed read; a claimed "
       "variable reaches no sink; `unread` means no statement reads it. Tie per run: facts, taint map, constraint map and CS0006/7/8 claims "
       "of the real passes = model on the same CFG, facts well formed (L2); read/written sets of every statement = an independent derivation "
-      "from the IR tree, and every real claim is perturbed in a reference interpreter under random valuations (L1).",
+      "from the IR tree, and every real claim is perturbed in a reference interpreter under random valuations (L1). The machine counts a constraint as an effect when one of its variables is in a set `mention` (any variables that an input/output signal flows into: those whose symbolic value mentions such a signal); with the sink rule before fix 3d6521e the cover lemma is false for a constraint on a single name (defect found by an audit). The oracle tracks the signals a local's symbolic value is built from.",
       "Lean kernel + standard axioms; the semantic functions of the machine's instructions depend only on the declared reads — that the real "
       "read/written sets are complete is checked per statement (L1), not proved; the closure theorems are conditional on the loop exiting "
       "through its subset test (the driver reports an exhausted budget); function calls / component outputs are not executed by the oracle.",
@@ -283,7 +283,7 @@ claim("C01", "proof",
       "the whole pipeline in-process and the real binary on special inputs (odd literals, pragmas, strings, arities, main forms), 14 nesting "
       "shapes up to depth 100, generated projects with token- and byte-level mutations, token soup, random and non-UTF-8 bytes, 3 curves x 3 "
       "levels: only a normal return / exit 0 or 1 with the summary line within the time limit is accepted; crashes are grouped by site and "
-      "shrunk.",
+      "shrunk. The outcome search runs the code under an 8 GB address-space limit and includes nested-index shapes (fix 661c0c6: exponential growth of cached variable uses).",
       "Lean kernel + standard axioms for the cited theorems; sites with disposition guarded/invariant/environment rest on the stated reason "
       "and on the outcome search, not on a proof; implicit panics (indexing, arithmetic overflow in debug builds, allocation failure, stack "
       "depth beyond the 1 GB thread, superlinear time on nesting deeper than 100) are only searched for.",
